@@ -10,12 +10,16 @@ import (
 
 // tracing host functions: t(i, v) records i and returns v; boom*() fail;
 // lz(c, a, b) is a user-registered lazy conditional; f3 is strict.
-type tracer struct{ log []int }
+type tracer struct {
+	log  []int
+	args []*val.Val // the value each recorded call received
+}
 
 func (tr *tracer) register(e *Engine) {
 	mk := func(t *types.Type) *val.Val {
 		return val.Fun(types.Fun("t", []*types.Type{types.Num, t}, t), func(args ...*val.Val) *val.Val {
 			tr.log = append(tr.log, int(args[0].Num().V))
+			tr.args = append(tr.args, args[1])
 			return args[1]
 		})
 	}
@@ -95,6 +99,22 @@ var lazyProgs = []lazyProg{
 	{"twice(t(1, a))", func(c, d bool) []int { return []int{1, 1} }, yes},
 	{"twice(if(t(1, c), t(2, a), t(3, b)))", func(c, d bool) []int { return cat([]int{1}, when(c, 2), when(!c, 3), []int{1}, when(c, 2), when(!c, 3)) }, yes},
 	{"lz(c, twice(t(1, a)), t(2, b))", func(c, d bool) []int { return cat(when(c, 1, 1), when(!c, 2)) }, yes},
+	// literal conditions and literal arms (what a constant-folding compiler looks at)
+	{"t(1, c) && false", func(c, d bool) []int { return []int{1} }, yes},
+	{"t(1, c) || true", func(c, d bool) []int { return []int{1} }, yes},
+	{"if(t(1, c), 7, 7)", func(c, d bool) []int { return []int{1} }, yes},
+	{"t(1, c) ? \"s\" : \"s\"", func(c, d bool) []int { return []int{1} }, yes},
+	{"if(true, t(1, a), t(2, b)) + if(false, t(3, a), t(4, b))", func(c, d bool) []int { return []int{1, 4} }, yes},
+	{"true && t(1, c) || false && t(2, d)", func(c, d bool) []int { return []int{1} }, func(c, d bool) bool { return true }},
+	{"boomb() && false", func(c, d bool) []int { return nil }, func(c, d bool) bool { return false }},
+	{"boomb() || true", func(c, d bool) []int { return nil }, func(c, d bool) bool { return false }},
+	{"if(boomb(), 1, 1)", func(c, d bool) []int { return nil }, func(c, d bool) bool { return false }},
+	// a lazy call to the right of an operand that is already evaluated, inside a lazy argument
+	{"lz(c, t(1, a) + lz(d, t(2, a), t(3, b)), t(4, b))", func(c, d bool) []int { return cat(when(c, 1), when(c && d, 2), when(c && !d, 3), when(!c, 4)) }, yes},
+	{"twice(t(1, a) + twice(t(2, b)))", func(c, d bool) []int { return []int{1, 2, 2, 1, 2, 2} }, yes},
+	{"lz(c, f3(t(1, a), lz(d, t(2, a), t(3, b)), t(4, a)), t(5, b))", func(c, d bool) []int {
+		return cat(when(c, 1), when(c && d, 2), when(c && !d, 3), when(c, 4), when(!c, 5))
+	}, yes},
 	{"[t(1, a), t(2, b)][t(3, 1)] + [t(4, \"k\"): t(5, a)][t(6, \"k\")]", func(c, d bool) []int { return []int{1, 2, 3, 4, 5, 6} }, yes},
 }
 
